@@ -504,19 +504,24 @@ func (rg *Range) callAxioms(name string, c *ssa.Call) {
 	n := calleeName(c.Common())
 	a := linAtom(name)
 	switch n {
-	case "tokens/type3.max":
-		if x, ok := rg.lin(c.Call.Args[0]); ok {
-			rg.axiom(a.minus(x))
+	case "tokens/type3.max", "builtin.max":
+		for _, arg := range c.Call.Args {
+			if x, ok := rg.lin(arg); ok {
+				rg.axiom(a.minus(x))
+			}
 		}
-		if y, ok := rg.lin(c.Call.Args[1]); ok {
-			rg.axiom(a.minus(y))
+	case "builtin.min":
+		for _, arg := range c.Call.Args {
+			if x, ok := rg.lin(arg); ok {
+				rg.axiom(x.minus(a))
+			}
 		}
 	case "bytes.IndexByte", "bytes.Index", "bytes.LastIndexByte", "bytes.LastIndex", "bytes.IndexAny", "bytes.IndexRune",
 		"strings.IndexByte", "strings.Index", "strings.LastIndexByte", "strings.LastIndex", "strings.IndexAny", "strings.IndexRune":
 		// documented contract: -1 or a valid index of the first argument
 		rg.axiom(a.addConst(1))
 		rg.axiom(rg.lenOf(c.Call.Args[0]).minus(a).addConst(-1))
-	case "builtin.min", "builtin.max":
+	case "builtin.clear":
 	case "(*math/big.Int).BitLen", "(*math/big.Int).TrailingZeroBits":
 		rg.axiom(a)
 		up := newLin()
